@@ -36,6 +36,7 @@
 EXTENDS SSEFunctional, Json, IOUtils
 
 X == -77
+FLT == -78          \* another non-integer a user can write: the float 1.5
 DEL == -88
 DELS == "<deleted>"
 Env == JsonDeserialize(IOEnv.C08_ENV)
@@ -52,7 +53,7 @@ NameFields(s) ==
       [] s = "ANSS16.Scheme3" -> {"prf", "ske"}
       [] s = "DP17.Pi"        -> {"rnd", "prf_f", "hash_h"}
 
-IsNum(v) == v # X /\ v # DEL
+IsNum(v) == v # X /\ v # FLT /\ v # DEL
 Deleted(s, cfg, f) ==
     IF f \in NameFields(s) THEN cfg[f] = DELS
     ELSE IF f = RATIO THEN cfg[f][1] = DEL
@@ -93,12 +94,14 @@ DbValid(s, cfg, p, d) ==
                              /\ IsNum(cfg.param_dictionary_size) /\ Len(p) <= cfg.param_dictionary_size)
     /\ (s = "CGKO06.SSE2" => IsNum(cfg.param_n) /\ d.files <= cfg.param_n)
 
-(* the grid of the property text has no negative block counts / capacities / sizes ("small and boundary values"): a    *)
-(* configuration with one is outside the property (-1 is what check_param_exist takes for "missing", the grid keeps  *)
-(* it for Layer B only); for the length fields -1 is one of the stated invalid values and stays inside               *)
+(* Negative block counts / capacities are configurations "a user can write" and "out-of-range values for every numeric   *)
+(* field" belong to the grid: they are inside the property (round 5; earlier they were read as outside, and PiPack /    *)
+(* PiPtr built an index with B = -2 whose every search came back empty - repaired by the fix recorded as D17).  A       *)
+(* negative identifier size, array size or file count leaves no database that is valid for the configuration, so such  *)
+(* points are judged by MissingFieldRefused only.                                                                        *)
 CapNames == {"param_B", "param_b", "param_B_prime", "param_b_prime", "param_s", "param_dictionary_size", "param_n",
              "param_max_file_size", "param_identifier_size", "param_L"}
-InDomain(s, cfg) == \A f \in (DOMAIN cfg) \cap CapNames : ~(IsNum(cfg[f]) /\ cfg[f] < 0)
+InDomain(s, cfg) == TRUE
 
 SearchWrong(s, p, x) ==
     /\ x.out = "result"
@@ -117,6 +120,7 @@ MissingFieldRefused(s, cfg, stage) == LacksRequired(s, cfg) => stage = "config"
 (* ======================================================================= *)
 LenVals == {8, 16, 20, 24, 32, 48, 0, -1, X}                      \* in range, plus invalid 0, -1, "x"
 BlkVals == {0, 1, 2, 3, 4, 8, 64}
+NegVals == {-2, -8}                                                \* out of range below zero (other than the "missing" marker -1)
 IdVals  == BlkVals \cup {-1, X}
 LocVals == {1, 2, 3, 0, X}
 RatioVals == {<<0, 1>>, <<1, 5>>, <<1, 2>>, <<4, 5>>, <<1, 1>>}
@@ -170,20 +174,23 @@ LenFields(s) ==
       [] s = "ANSS16.Scheme3" -> {"param_lambda", "param_k", "param_k_prime", "param_l", "param_l_prime"}
       [] s = "DP17.Pi"        -> {"param_lambda"}
 (* the values the grid gives to one field (deletion is added by the generator) *)
-FieldVals(s, f) ==
+NumericField(s, f) == f \in LenFields(s) \cup {"param_identifier_size", "param_B", "param_b", "param_B_prime", "param_b_prime",
+                                               "param_dictionary_size", "param_s", "param_n", "param_max_file_size", "param_L"}
+FieldVals0(s, f) ==
     IF f \in LenFields(s) THEN LenVals
     ELSE IF f = "param_identifier_size" THEN IdVals
-    ELSE IF f \in {"param_B", "param_b", "param_B_prime", "param_b_prime", "param_dictionary_size"} THEN BlkVals \cup {-1, X}
+    ELSE IF f \in {"param_B", "param_b", "param_B_prime", "param_b_prime", "param_dictionary_size"} THEN BlkVals \cup NegVals \cup {-1, X}
     ELSE IF f = "param_s" THEN BlkVals \cup {5, 6, 7, 12, 16, 32, 48, -1, X}      \* incl. non-powers of two
     ELSE IF f = "param_n" THEN BlkVals \cup {5, 6, 7, 9, -1, X}
     ELSE IF f = "param_max_file_size" THEN BlkVals \cup {1048576, -1, X}
-    ELSE IF f = "param_L" THEN LocVals \cup {-1}
+    ELSE IF f = "param_L" THEN LocVals \cup NegVals \cup {-1}
     ELSE IF f = RATIO THEN RatioVals
     ELSE IF f \in {"prf_f", "prf_f_prime", "prf"} THEN PRFNames
     ELSE IF f \in {"ske", "ske1", "ske2", "rnd"} THEN SKENames
     ELSE IF f \in {"prp_pi", "prp_psi"} THEN PRPNames
     ELSE IF f = "hash_h" THEN HashNames
     ELSE {}
+FieldVals(s, f) == (IF NumericField(s, f) THEN {FLT} ELSE {}) \cup FieldVals0(s, f)
 DelVal(s, f) == IF f \in NameFields(s) THEN DELS ELSE IF f = RATIO THEN <<DEL, 1>> ELSE DEL
 
 (* ======================================================================= *)
@@ -193,6 +200,9 @@ DelVal(s, f) == IF f \in NameFields(s) THEN DELS ELSE IF f = RATIO THEN <<DEL, 1
 (* the model.  FALSE describes the tree without it: setup completes, every keyword gets the same label, and a      *)
 (* search decrypts a foreign ciphertext - PKCS7 unpadding fails with probability 255/256, else garbage comes back. *)
 ZeroLenRefused == TRUE
+(* fix D17: PiPack param_B, PiPtr param_B / param_b must be positive integers (FALSE describes the tree without it) *)
+PosBlockRefused == TRUE
+NotPosInt(v) == v = X \/ (IsNum(v) /\ v < 1)
 
 Missing(v) == v = DEL \/ v = -1                     \* check_param_exist: config_dict.get(field, -1) == -1
 AESKey(v) == v \in {16, 24, 32}
@@ -221,7 +231,9 @@ SSE2Bits(cfg) == CeilLog2(cfg.param_n + ParamMax(cfg.param_max_file_size))     \
 ConfigRaises(s, cfg) ==
     CASE s = "CJJ14.PiBas"  -> CJJCommonRaises(cfg)
       [] s = "CJJ14.PiPack" -> CJJCommonRaises(cfg) \/ Missing(cfg.param_B) \/ Missing(cfg.param_identifier_size)
+                               \/ (PosBlockRefused /\ NotPosInt(cfg.param_B))
       [] s = "CJJ14.PiPtr"  -> CJJCommonRaises(cfg) \/ Missing(cfg.param_B) \/ Missing(cfg.param_b) \/ Missing(cfg.param_identifier_size)
+                               \/ (PosBlockRefused /\ (NotPosInt(cfg.param_B) \/ NotPosInt(cfg.param_b)))
       [] s = "CJJ14.Pi2Lev" -> CJJCommonRaises(cfg) \/ Pi2LevCfgRaises(cfg)
       [] s = "CGKO06.SSE1"  ->
             \/ \E f \in {"param_k", "param_l", "param_s", "param_dictionary_size", "param_identifier_size"} : Missing(cfg[f])
@@ -268,8 +280,10 @@ AnyStage == {"config", "scheme", "keygen", "setup", "token", "search", "ok", "wr
 (* after a configuration that builds *)
 AfterConfig(s, cfg, p) ==
     CASE s = "CJJ14.PiBas"  -> IF FoutBad(cfg) THEN {"setup"} ELSE {"ok"}
-      [] s = "CJJ14.PiPack" -> IF FoutBad(cfg) \/ cfg.param_B \in {0, X} THEN {"setup"} ELSE {"ok"}          \* range() step 0 / "x"
-      [] s = "CJJ14.PiPtr"  -> IF FoutBad(cfg) \/ cfg.param_B \in {0, X} \/ cfg.param_b \in {0, X} THEN {"setup"} ELSE {"ok"}
+      [] s = "CJJ14.PiPack" -> IF FoutBad(cfg) \/ cfg.param_B \in {0, X} THEN {"setup"}                      \* range() step 0 / "x"
+                               ELSE IF cfg.param_B < 0 THEN {"wrong"} ELSE {"ok"}                           \* (only without fix D17)
+      [] s = "CJJ14.PiPtr"  -> IF FoutBad(cfg) \/ cfg.param_B \in {0, X} \/ cfg.param_b \in {0, X} THEN {"setup"}
+                               ELSE IF cfg.param_B < 0 \/ cfg.param_b < 0 THEN {"wrong"} ELSE {"ok"}        \* (only without fix D17)
       [] s = "CJJ14.Pi2Lev" ->
             IF cfg.param_B = 0 THEN {"setup"}                           \* every list is longer than b' * 0: ceil(n / (B * B'))
             ELSE IF Pi2LevOutcome(p, Pi2LevC(cfg)) = "raised" THEN {"setup"}                                \* index width, "too large"
@@ -294,14 +308,18 @@ AfterConfig(s, cfg, p) ==
             ELSE IF cfg.param_l < 1 \/ cfg.param_l_prime < 1 THEN {"search", "ok", "wrong"}     \* only without the proposed fix
             ELSE {"ok"}
       [] s = "DP17.Pi"      ->
-            IF cfg.param_L \in {0, X} THEN {"setup"}                    \* no level is large enough / "x" > 1
+            IF cfg.param_L \in {0, X} \/ cfg.param_L < 0 THEN {"setup"}  \* no level is large enough / "x" > 1
+            ELSE IF \E i \in DPLevels(p, [stab |-> STab(cfg[RATIO]), L |-> cfg.param_L]) : i < -1
+                 THEN {"setup"}                                         \* a listed level below -1: 2 ** (i + 1) is a float, range() refuses it
             ELSE IF HashLen(cfg.hash_h) = 0                             \* shake_*: [i || x] has to fit 0 bytes
                  THEN LET c == [stab |-> STab(cfg[RATIO]), L |-> cfg.param_L] IN
                       IF \A i \in 1..Len(p) : DPLevelOf(p[i], p, c) = 0 THEN {"setup", "ok"} ELSE {"setup"}
             ELSE {"ok"}
 
+HasFlt(s, cfg) == \E f \in DOMAIN cfg : f \notin NameFields(s) /\ f # RATIO /\ cfg[f] = FLT
 StageSet(s, cfg, p, d) ==
-    IF ConfigRaises(s, cfg) THEN {"config"}
+    IF HasFlt(s, cfg) THEN AnyStage                 \* where a float is refused (or whether it works) is not modelled
+    ELSE IF ConfigRaises(s, cfg) THEN {"config"}
     ELSE IF ~Predictable(s, cfg, p, d) THEN AnyStage
     ELSE AfterConfig(s, cfg, p)
 
